@@ -71,6 +71,12 @@ REV=[
  ("date text naming a date that does not exist was accepted",["C03"],"R-ERR/E4d"),
  ("a google.protobuf.Any holding a message with every field at its default could not be encoded",["C01"],"R-FLOW/anycontent"),
  ("objects of service and topic blocks were exported as types of the parent package",["C14", "C13", "C07"],"R-PROV/exportscope"),
+ ("deeply nested blocks exhausted the stack of the schema walker",["C07"],"R-TERM/T-nest"),
+ ("a key repeated in a map of scalars or enums silently replaced the earlier value",["C03"],"R-ERR/E4"),
+ ("the value of an Any was taken from whatever key the document used",["C03"],"R-ERR/E4"),
+ ("timestamp text outside the range of google.protobuf.Timestamp was decoded without error",["C03"],"R-ERR/E4t"),
+ ("data after the end of the JSON document was silently ignored",["C03"],"R-ERR/E4e"),
+ ("an explicit null for an absent oneof arm was counted as a second key",["C03"],"R-ERR/E4n"),
 ]
 n=0
 for sub,props,expect in REV:
